@@ -41,7 +41,27 @@ pub open spec fn wants_sugar(c: Config, a: FunctionArgs, obscure: bool) -> bool 
         _ => false,
     }
 }
-pub uninterp spec fn args_lead_last(a: FunctionArgs) -> Token;   // the last token of the arguments' leading trivia
+// the leading trivia of the arguments: that of their first token
+pub uninterp spec fn table_lead(t: TableConstructor) -> Seq<Token>;
+pub open spec fn args_lead(a: FunctionArgs) -> Seq<Token> {
+    match a {
+        FunctionArgs::Parentheses { parentheses, .. } => tr_lead(span_open(parentheses)),
+        FunctionArgs::String(t) => tr_lead(t),
+        FunctionArgs::TableConstructor(tc) => table_lead(tc),
+        _ => Seq::empty(),
+    }
+}
+// C10 / C11: what separates a node from the token in front of it. `wanted` is the separator of the style (a space, or nothing);
+// behind a line break (comments in front of the node end with one) it is the indent of the new line instead, and nothing at all
+// where the line is already indented
+pub open spec fn sep_ok(before: Seq<Token>, s: Token, wanted: TokenType) -> bool {
+    if before.len() >= 1 && is_newline_tok(before.last()) { is_indent_tok(s) }
+    else if before.len() >= 2 && token_type_of(before.last()) is Whitespace && is_newline_tok(before[before.len() - 2]) { token_type_of(s) == spaces_tt(0) }
+    else { token_type_of(s) == wanted }
+}
+pub open spec fn separated(a: FunctionArgs, wanted: TokenType) -> bool {
+    args_lead(a).len() >= 1 && sep_ok(args_lead(a).drop_last(), args_lead(a).last(), wanted)
+}
 """
 
 FM = r"""
@@ -79,6 +99,11 @@ def items():
         Fn(EX, "format_expression", mode="stub", proved_in="expr", contract="requires wf(skel(*expression)), ensures erase(skel(r)) == erase(skel(*expression)), skel(*expression) is Leaf ==> skel(r) == skel(*expression),"),
         Fn("src/formatters/table.rs", "format_table_constructor", mode="stub", contract="ensures table_id(r) == table_id(*table_constructor),"),
         Fn(TU, "take_trailing_comments", contract="ensures node.same_sem_t(&r.0),"),
+        Fn(TU, "trivia_is_whitespace", mode="stub", contract="ensures r == (token_type_of(*trivia) is Whitespace),", note="token_kind() of a token is the kind of its token_type()"),
+        Fn(TU, "trivia_is_newline", mode="stub", contract="ensures r == is_newline_tok(*trivia),", note="defines is_newline_tok: a whitespace token whose characters contain a line feed"),
+        Fn(TU, "separator_or_indent", contract="""
+    ensures sep_ok(leading_trivia@, r, token_type_of(separator)), //# C10.separator_or_indent
+"""),
         Item(FUN, "enum", "FunctionCallNextNode"),
         Raw("""
 impl UpdateTrailingTrivia for TableConstructor {
@@ -89,14 +114,14 @@ impl UpdateTrailingTrivia for TableConstructor {
 }
 impl UpdateLeadingTrivia for TableConstructor {
     open spec fn same_sem(&self, r: &Self) -> bool { table_id(*r) == table_id(*self) }
-    open spec fn lead_ok(&self, t: FormatTriviaType, r: &Self) -> bool { true }
+    open spec fn lead_ok(&self, t: FormatTriviaType, r: &Self) -> bool { t is Append ==> table_lead(*r) == table_lead(*self) + t->Append_0@ }
     open spec fn on_new_line(&self) -> bool { other_nl(*self) }
     open spec fn rest_same(&self, r: &Self) -> bool { true }
     #[verifier::external_body] fn update_leading_trivia(&self, leading_trivia: FormatTriviaType) -> (r: Self) { unimplemented!() }
 }
 impl UpdateLeadingTrivia for FunctionArgs {
     open spec fn same_sem(&self, r: &Self) -> bool { args_sem(*r) == args_sem(*self) && (*r is Parentheses) == (*self is Parentheses) && (*r is String) == (*self is String) }
-    open spec fn lead_ok(&self, t: FormatTriviaType, r: &Self) -> bool { t is Append && t->Append_0@.len() == 1 ==> args_lead_last(*r) == t->Append_0@[0] }
+    open spec fn lead_ok(&self, t: FormatTriviaType, r: &Self) -> bool { t is Append ==> args_lead(*r) == args_lead(*self) + t->Append_0@ }
     open spec fn on_new_line(&self) -> bool { other_nl(*self) }
     open spec fn rest_same(&self, r: &Self) -> bool { true }
     #[verifier::external_body] fn update_leading_trivia(&self, leading_trivia: FormatTriviaType) -> (r: Self) { unimplemented!() }
@@ -116,6 +141,9 @@ pub assume_specification [<TableConstructor as Clone>::clone] (b: &TableConstruc
 impl GetLeadingTrivia for TokenReference { }
 """) if False else Raw(""),
         Raw("""
+#[verifier::external_body] pub fn lead_of_args(a: &FunctionArgs) -> (r: Vec<Token>) ensures r@ == args_lead(*a) { unimplemented!() /* GetLeadingTrivia::leading_trivia(a) */ }
+#[verifier::external_body] pub fn lead_of_tok(t: &TokenReference) -> (r: Vec<Token>) ensures r@ == tr_lead(*t) { unimplemented!() /* GetLeadingTrivia::leading_trivia(t) */ }
+#[verifier::external_body] pub fn lead_of_table(t: &TableConstructor) -> (r: Vec<Token>) ensures r@ == table_lead(*t) { unimplemented!() /* GetLeadingTrivia::leading_trivia(t.braces().tokens().0) */ }
 #[verifier::external_body] pub fn has_comments(t: &TokenReference, leading: bool) -> (r: bool) ensures r == tok_has_comments(*t, leading) { unimplemented!() }
 """, module="verif_args"),
         Fn(FUN, "function_args_contains_comments", mode="stub"),
@@ -129,12 +157,15 @@ impl GetLeadingTrivia for TokenReference { }
         ctx.config.call_parentheses is Input ==> (r is Parentheses) == (*function_args is Parentheses) && (r is String) == (*function_args is String), //# C11.input_keeps_form
         args_sem(r) == args_sem(*function_args), //# C02.call_sugar_keeps_argument
         (*function_args is Parentheses) && !(r is Parentheses) ==> !paren_comments(*function_args), //# C03.args_conversion_keeps_comments
+        (r is String || r is TableConstructor) ==> separated(r, spaces_tt(1)), //# C10.sugar_argument_separated
     decreases (if *function_args is Parentheses { 1int } else { 0int }),
 """, edits=[
             Hole("arguments.iter().next().unwrap()", "first_arg(arguments)", kind="wrapper", why="Punctuated::iter().next().unwrap()", count=2),
             Hole("parentheses.tokens().0.has_leading_comments(CommentSearch::All)", "verif_args::has_comments(parentheses.tokens().0, true)", kind="wrapper", why="GetLeadingTrivia default method (iterator chain)"),
             Hole("parentheses.tokens().0.has_trailing_comments(CommentSearch::All)", "verif_args::has_comments(parentheses.tokens().0, false)", kind="wrapper", why="GetTrailingTrivia default method (iterator chain)"),
             Hole("parentheses.tokens().1.has_leading_comments(CommentSearch::All)", "verif_args::has_comments(parentheses.tokens().1, true)", kind="wrapper", why="GetLeadingTrivia default method (iterator chain)"),
+            Hole("&GetLeadingTrivia::leading_trivia(&token_reference)", "verif_args::lead_of_tok(&token_reference).as_slice()", kind="wrapper", why="GetLeadingTrivia::leading_trivia of a token (iterator chain)", optional=True),
+            Hole("&GetLeadingTrivia::leading_trivia(table_constructor.braces().tokens().0)", "verif_args::lead_of_table(&table_constructor).as_slice()", kind="wrapper", why="GetLeadingTrivia::leading_trivia of the table's opening brace (iterator chain)", optional=True),
             Hole("parentheses.tokens().1.trailing_trivia().cloned().collect()", "paren_close_trailing(parentheses)", why="iterator chain: trailing trivia of `)`"),
             Hole("""format_contained_punctuated_multiline(
                     ctx,
@@ -151,7 +182,9 @@ impl GetLeadingTrivia for TokenReference { }
         Fn(FUN, "format_call", contract="""
     requires call_wf(*call),
     ensures call_post(ctx.config, *call, call_next_node is ObscureWithoutParens, r), //# C11.call_form
-""", edits=[]),
+""", edits=[
+            Hole("&formatted_function_args.leading_trivia()", "verif_args::lead_of_args(&formatted_function_args).as_slice()", kind="wrapper", why="GetLeadingTrivia::leading_trivia of the arguments' first token (iterator chain)", optional=True),
+        ]),
         Raw("""
 pub open spec fn call_wf(c: Call) -> bool { match c { Call::AnonymousCall(a) => args_wf(a), _ => true } }
 pub open spec fn call_post(c: Config, call: Call, obscure: bool, r: Call) -> bool {
@@ -159,7 +192,8 @@ pub open spec fn call_post(c: Config, call: Call, obscure: bool, r: Call) -> boo
         Call::AnonymousCall(a) => match r {
             Call::AnonymousCall(ra) => args_sem(ra) == args_sem(a) && (ra is Parentheses) == !wants_sugar(c, a, obscure)
                 // one space between the function name and its arguments exactly in the cases space_after_function_names names
-                && token_type_of(args_lead_last(ra)) == spaces_tt(if c.space_after_function_names is Always || c.space_after_function_names is Calls { 1 } else { 0 }),
+                // (behind comments that end the line, the arguments are indented on their own line instead)
+                && separated(ra, spaces_tt(if c.space_after_function_names is Always || c.space_after_function_names is Calls { 1 } else { 0 })),
             _ => false },
         Call::MethodCall(_) => r is MethodCall,
         _ => true,
@@ -175,6 +209,8 @@ LABELS = {
     "C11.input_keeps_form": dict(props=["C11"], text="call_parentheses = Input: each call keeps the form it had"),
     "C02.call_sugar_keeps_argument": dict(props=["C02", "C11"], text="format_function_args: the argument list is the same modulo the call sugar f's' / f{t} (same single argument; same number of arguments, each with the same operator tree)"),
     "C03.args_conversion_keeps_comments": dict(props=["C03"], text="parentheses are only dropped when neither parenthesis carries a comment that would disappear with it"),
+    "C10.separator_or_indent": dict(props=["C10", "C11"], text="separator_or_indent: behind a line break the separator is the indent of the new line (never a space in front of the indentation), nothing where the line is already indented, and the wanted separator otherwise"),
+    "C10.sugar_argument_separated": dict(props=["C10", "C11"], text="format_function_args: a string / table argument written without parentheses is separated from the function name by one space, or indented on its own line behind comments"),
     "C11.call_form": dict(props=["C11", "C02"], text="format_call: an anonymous call's arguments get the form format_function_args decides, same arguments"),
 }
 
